@@ -1332,12 +1332,25 @@ func (e *Env) call(ex *ast.CallExpr) (SymVal, error) {
 		if !ok {
 			return SymVal{}, fmt.Errorf("%s(Type.field, ...)", name)
 		}
+		var t types.Type
 		tn, ok := sel.X.(*ast.Ident)
 		if !ok {
-			return SymVal{}, fmt.Errorf("%s(Type.field, ...)", name)
+			// pkg.Type.field
+			if ps, ok2 := sel.X.(*ast.SelectorExpr); ok2 {
+				if tt, err := e.typeExpr(ps); err == nil {
+					t = tt
+					tn = ps.Sel
+					ok = true
+				}
+			}
+			if !ok {
+				return SymVal{}, fmt.Errorf("%s(Type.field, ...)", name)
+			}
 		}
-		var t types.Type
 		for _, p := range e.pkgs() {
+			if t != nil {
+				break
+			}
 			if o := p.Pkg.Scope().Lookup(tn.Name); o != nil {
 				if tnn, ok := o.(*types.TypeName); ok {
 					t = tnn.Type()
